@@ -60,6 +60,18 @@ HeapInit ==
 
 RoundTrip == LET r == VMRun(Enc(x, 2)) IN r.ok /\ CanonOfVM(r) = CanonOfHeap(x)
 
+\* reference graphs: every node is a host object (function, function code) or a container, and
+\* host objects may refer to themselves or to one another through their arguments
+RefInit ==
+    \E ts \in [NodeIds -> {"host", "list", "dict"}] : \E ks \in [NodeIds -> KidSeqs] :
+        LET nodes == [i \in NodeIds |-> NodeOf(ts[i], ks[i])] IN
+        /\ ts[1] = "host"
+        /\ \A i \in NodeIds : ts[i] = "dict" => (Len(ks[i]) % 2 = 0 /\ \A j \in DOMAIN ks[i] : j % 2 = 1 => ~IsRef(ks[i][j]))
+        /\ x = [root |-> Ref(1), nodes |-> nodes]
+\* the fingerprint of every such graph can be computed: the encoder terminates and its output
+\* is a well-formed pickle
+Fingerprintable == EncTerminates(x, 2) /\ VMRun(Enc(x, 2)).ok
+
 \* op strings
 OpAlphabet == { [op |-> "MARK"], [op |-> "STOP"], [op |-> "MEMOIZE"], [op |-> "BINGET", i |-> 0], [op |-> "BINGET", i |-> 1],
                 [op |-> "NONE"], [op |-> "INT", v |-> "7"], [op |-> "STR", v |-> "a"],
@@ -71,8 +83,8 @@ OpsInit == \E k \in 0..L : x \in [1..k -> OpAlphabet]
 
 Total == LET r == VMRun(x) IN r.halted /\ (r.ok => CanonOfVM(r) = CanonOfVM(r)) /\ (~r.ok => r.err # "")
 
-Init == IF Mode = "heaps" THEN HeapInit ELSE OpsInit
+Init == IF Mode = "heaps" THEN HeapInit ELSE IF Mode = "refs" THEN RefInit ELSE OpsInit
 Next == UNCHANGED x
 Spec == Init /\ [][Next]_x
-Inv == IF Mode = "heaps" THEN RoundTrip ELSE Total
+Inv == IF Mode = "heaps" THEN RoundTrip ELSE IF Mode = "refs" THEN Fingerprintable ELSE Total
 =============================================================================
